@@ -115,6 +115,12 @@ def kind_cells(kind):
                                '(void)c.getAdjacencyMatrix(false); g.resize(5); (void)c.getSize(); (void)c.getEdgeNumber(); '
                                'for (auto v : c) (void)v; for (auto e : c.edges()) (void)e; c.assertVertexInRange(0); '
                                'std::cout << c;') % ((G, G) + (K['sample'],) * 5)))
+        # ---- the iterator protocol of vertices and edges, spelled out (range-for uses only pre-increment)
+        cells.append(Cell(p + '_iterators', 'method', tmpl + '::iterators',
+                          ('%s g(3); const %s &c = g; auto es = c.edges(); auto it = es.begin(); auto en = es.end(); '
+                           '(void)(it == en); (void)(it != en); if (it != en) { (void)*it; ++it; } if (it != en) { it++; } '
+                           'auto vi = c.begin(); auto ve = c.end(); (void)(vi != ve); (void)*vi; ++vi; vi++;') % (G, G)))
+        if 'Undirected' in tmpl:
             cells.append(Cell(p + '_from_directed', 'conv', tmpl + '::ctor(const Directed&)',
                               'BaseGraph::LabeledDirectedGraph<%s> d(3); %s u(d); (void)u;' % (Kc, G)))
         # ---- algorithms
